@@ -31,3 +31,41 @@ def task_output(state, raw, context, task_result):
 def io_only_output(state, raw, context):
     """Choice / Wait / Succeed: InputPath then OutputPath, no result."""
     return AP(effective_input(state, raw, context), context, state.get("OutputPath", "$"))
+
+
+def task_error_type(result):
+    """How the engine reads a task result: a dict with a truthy Error is States.TaskFailed, otherwise the
+    dispatcher's errorType ('' when absent); anything that is not a dict is a plain result."""
+    if isdict(result):
+        if result.get("Error"):
+            return "States.TaskFailed"
+        return result.get("errorType", "")
+    return None
+
+
+def task_result_is_error(result):
+    return True if task_error_type(result) else False
+
+
+def task_timeout_ms(exec_start, exec_timeout_s, state_entered, state_timeout_s, now):
+    """C08: min(task deadline, execution deadline) - now, in milliseconds, never negative."""
+    t1 = (exec_start + real(exec_timeout_s) - now) * 1000
+    t1 = rmax(t1, 0)
+    t2 = (state_entered + real(state_timeout_s) - now) * 1000
+    t2 = rmax(t2, 0)
+    return rmin(t1, t2)
+
+
+def wait_ms(exec_start, exec_timeout_s, target, now):
+    """C08: a Wait completes at max(now, min(target, execution deadline)): never early, exact when not late."""
+    t1 = rmax((exec_start + real(exec_timeout_s) - now) * 1000, 0)
+    t2 = rmax((target - now) * 1000, 0)
+    return rmin(t1, t2)
+
+
+def wait_uses_seconds(state):
+    return True if state.get("Seconds") else False
+
+
+def wait_uses_timestamp(state):
+    return True if (not state.get("Seconds") and not state.get("SecondsPath") and state.get("Timestamp")) else False
